@@ -242,7 +242,39 @@ impl Runner {
         }
     }
 
+    /// serde_lexpr's from_str / from_slice / from_reader on the same bytes (target: anything, ignored)
+    fn serde_sources(&mut self, text: &[u8], ro: &J) {
+        use serde::de::IgnoredAny;
+        let o = parse_opts(ro);
+        let cat = |r: Result<IgnoredAny, serde_lexpr::Error>| -> String {
+            match r {
+                Ok(_) => "ok".to_string(),
+                Err(e) => format!("{:?}", e.classify()),
+            }
+        };
+        let t = text.to_vec();
+        let r = std::panic::catch_unwind(move || {
+            let a = cat(serde_lexpr::from_slice_custom::<IgnoredAny>(&t, o));
+            let b = cat(serde_lexpr::from_reader_custom::<IgnoredAny>(&t[..], o));
+            let (rd, _) = SchedReader::new(&t, vec![1usize], 2, None, 0);
+            let c = cat(serde_lexpr::from_reader_custom::<IgnoredAny>(rd, o));
+            let d = std::str::from_utf8(&t).ok().map(|s| cat(serde_lexpr::from_str_custom::<IgnoredAny>(s, o)));
+            (a, b, c, d)
+        });
+        self.evals += 1;
+        match r {
+            Ok((a, b, c, d)) => {
+                if a != b || a != c || d.as_ref().map(|d| *d != a).unwrap_or(false) {
+                    self.bad.push(json!({"rule":"run","why":format!("serde_lexpr entry points disagree: slice {}, reader {}, trickling reader {}, str {:?}", a, b, c, d),
+                                         "what":"serde-sources","text":bytes_j(text),"ro":ro,"ev":{"src":"serde"}}));
+                }
+            }
+            Err(_) => self.bad.push(json!({"rule":"run","why":"serde_lexpr entry point panicked","what":"serde-sources","text":bytes_j(text),"ro":ro,"ev":{"src":"serde"}})),
+        }
+    }
+
     pub fn text(&mut self, text: &[u8], ro: &J, rng: &mut rand::rngs::StdRng, want_trace: bool) {
+        self.serde_sources(text, ro);
         let o = parse_opts(ro);
         let base_r = match std::panic::catch_unwind(|| lexpr::from_slice_custom(text, o)) {
             Ok(r) => r,
